@@ -14,7 +14,10 @@ ID = "C06"
 LEAN_TARGETS = ["Strengths.Props.C06"]
 PROP_FILES = ["Strengths/Props/C06.lean"]
 GEN_GROUPS = ["Units"]
-RULE = ("purity / re-use sequences (source and target objects re-used and edited between conversions); same-system other-dimension targets; exhaustive: every ordered pair of symbols per base kind x exponents -4..4 (factor vs exact SI ratio); "
+RULE = ("exponents far beyond +-4 (10..48 on one to three bases, factor inside 1e+-270) through the factor, convert_value, all five target forms, "
+        "scalars and arrays; ONE quantity object converted, its units edited in place through every public route (nested attribute / item "
+        "setters, assignment of .sys / .dim / .units) and converted again to the same target; "
+        "purity / re-use sequences (source and target objects re-used and edited between conversions); same-system other-dimension targets; exhaustive: every ordered pair of symbols per base kind x exponents -4..4 (factor vs exact SI ratio); "
         "random: triples of systems x dimension vectors in [-4,4]^3 x five target forms x scalar/array; "
         "a case is non-trivial when source and destination differ in a base whose exponent is non-zero; "
         "distinct by (src, dst, dim, form)")
@@ -67,6 +70,52 @@ def rand_dim(rng, lo=-4, hi=4):
     return (rng.randint(lo, hi), rng.randint(lo, hi), rng.randint(lo, hi))
 
 
+def _log10(q):
+    import math
+    return math.log10(q.numerator) - math.log10(q.denominator)
+
+
+_SYMS = (SPACE, TIME, QTY)
+_SI1 = (si_space, si_time, si_qty)
+_DEFAULT = ("µm", "s", "molecule")
+
+
+def big_dim_case(rng, emax=48, budget=270.0):
+    """(U, V, d): a conversion whose dimension vector has exponents far beyond the everyday +-4 (10 <= |e| <= emax on one,
+    two or three bases) while the FACTOR itself — and every partial product of its three per-base ratios — stays well
+    inside the range of doubles (sum over the bases of |log10 (src/dst)^e| <= budget).  The scales themselves raised to
+    such an exponent (NA^13, (1e-15)^21) are far outside that range: only the quotient src/dst may be raised.
+    Source and destination agree (identity), are neighbours in the table (ratio 10 / 60 / 1000) or are any pair."""
+    nact = rng.choice([1, 1, 1, 2, 2, 3])
+    act = rng.sample([0, 1, 2], nact)
+    U, V, d = [None] * 3, [None] * 3, [0] * 3
+    for k in range(3):
+        syms = _SYMS[k]
+        if k not in act:
+            U[k], V[k] = rng.choice(syms), rng.choice(syms)
+            continue
+        for _try in range(50):
+            a = rng.choice(syms)
+            how = rng.random()
+            if how < 0.2:
+                b = a
+            elif how < 0.65:
+                i = syms.index(a)
+                b = syms[min(max(i + rng.choice([-1, 1, -2, 2]), 0), len(syms) - 1)]
+            else:
+                b = rng.choice(syms)
+            L = abs(_log10(_SI1[k](a) / _SI1[k](b)))
+            top = emax if L == 0 else min(emax, int((budget / nact) / L))
+            if top >= 10:
+                break
+        else:
+            a = b = rng.choice(syms)
+            top = emax
+        e = rng.choice([top, top, top - 1, rng.randint(10, top), rng.randint(10, top)])
+        U[k], V[k], d[k] = a, b, e * rng.choice([1, -1])
+    return tuple(U), tuple(V), tuple(d)
+
+
 _UT = [0]
 
 
@@ -116,6 +165,279 @@ def mk_units(sys, dim):
         return Units({a: sv[a] for a in o1}, {a: dv[a] for a in o2})
     return Units(UnitsSystem(space=sys[0], time=sys[1], quantity=sys[2]),
                  UnitsDimensions(space=dim[0], time=dim[1], quantity=dim[2]))
+
+
+def _sys3(u):
+    return (u.sys.space, u.sys.time, u.sys.quantity)
+
+
+def _dim3(u):
+    return (u.dim.space, u.dim.time, u.dim.quantity)
+
+
+def big_exponent_stream(ctx, n, TOL=1e-12):
+    """exponents 10..48: factor, convert_value, scalar and array conversion, identity, there-and-back, composition through an
+    intermediate system — all judged by exact SI scaling; the factor is also compared with the model's `conv_factor`"""
+    UnitsSystem, UnitsDimensions, Units, UnitValue, UnitArray, ccf, parse_units = impl_objs()
+    from strengths.units import convert_value
+    import numpy as np
+    rng = ctx.rng
+    cases = [big_dim_case(rng) for _ in range(n)]
+    ops = [{"op": "conv_factor", "src": sysj(U), "dst": sysj(V), "dim": list(d)} for U, V, d in cases]
+    res = ctx.model.run(ops)
+    for (U, V, d), r in zip(cases, res):
+        spec = si_factor(U, d) / si_factor(V, d)
+        v0 = float(rng.choice([1, -1]) * rng.randint(1, 999999) * Fraction(10) ** rng.randint(-3, 3))
+        case = {"src": U, "dst": V, "dim": d, "v": v0}
+        same_on_active = all(U[k] == V[k] for k in range(3) if d[k] != 0)
+        ctx.case(("X", U, V, d), nontrivial=True, sample={"op": "conv_factor", "case": case, "spec": common.fstr(spec)})
+        ctx.count("large_exponent")
+        ctx.count("large_exponent_identity" if same_on_active else "large_exponent_%d_bases" % sum(1 for e in d if e))
+        got = {}
+
+        def attempt(name, fn):
+            try:
+                got[name] = fn()
+            except Exception as ex:  # noqa
+                got[name] = "error:" + type(ex).__name__
+        sU, sV, dd = UnitsSystem(*U), UnitsSystem(*V), UnitsDimensions(*d)
+        attempt("factor", lambda: float(ccf(sU, sV, dd)))
+        attempt("convert_value", lambda: float(convert_value(v0, sU, sV, dd)))
+        attempt("scalar", lambda: float(UnitValue(v0, mk_units(U, d)).convert(UnitsSystem(*V)).value))
+        attempt("array", lambda: [float(x) for x in UnitArray([v0, 3.0 * v0], mk_units(U, d)).convert(UnitsSystem(*V)).value])
+        attempt("ndarray", lambda: [float(x) for x in convert_value(np.array([v0, -v0]), sU, sV, dd)])
+        attempt("back", lambda: float(UnitValue(v0, mk_units(U, d)).convert(UnitsSystem(*V)).convert(UnitsSystem(*U)).value))
+        attempt("same", lambda: float(UnitValue(v0, mk_units(U, d)).convert(UnitsSystem(*U)).value))
+        attempt("same_array", lambda: [float(x) for x in UnitArray([v0], mk_units(U, d)).convert(UnitsSystem(*U)).value])
+        fv = frac(v0)
+
+        def okv(x, q):
+            return isinstance(x, float) and close(x, q, rel=TOL)
+
+        def okl(xs, qs):
+            return isinstance(xs, list) and len(xs) == len(qs) and all(okv(x, q) for x, q in zip(xs, qs))
+        bad = []
+        if not okv(got["factor"], spec):
+            bad.append("factor")
+        if not okv(got["convert_value"], fv * spec):
+            bad.append("convert_value")
+        if not okv(got["scalar"], fv * spec):
+            bad.append("scalar")
+        if not okl(got["array"], [fv * spec, 3 * fv * spec]):
+            bad.append("array")
+        if not okl(got["ndarray"], [fv * spec, -fv * spec]):
+            bad.append("ndarray")
+        if not okv(got["back"], fv):
+            bad.append("back")
+        if not okv(got["same"], fv) or not okl(got["same_array"], [fv]):
+            bad.append("same")
+        if bad:
+            what = "identity" if (same_on_active or bad == ["same"]) else "value"
+            ctx.violation("large-exponent:%s" % what,
+                          "with dimension %s, converting %r from %s to %s: %s differ(s) from exact SI scaling (factor %s): %r"
+                          % (list(d), v0, list(U), list(V), ", ".join(bad), common.fstr(spec), {b: got[b] for b in bad}),
+                          case, impl=got, expected={"factor": rstr(spec)})
+        if r is not None and "ok" in r:
+            if not okv(got["factor"], rparse(r["ok"])):
+                ctx.disagree("conv_factor", case, got["factor"], r["ok"])
+        elif r is not None:
+            ctx.disagree("conv_factor", case, got["factor"], r)
+
+
+_EDITS = ["sys-attr", "sys-item", "dim-attr", "dim-item", "sys-object", "sys-dict", "dim-object", "dim-dict",
+          "units-object", "units-text", "sys-attr", "sys-item", "dim-attr", "dim-item"]
+_BASES = ("space", "time", "quantity")
+
+
+def _apply_edit(x, how, ks, cur_sys, cur_dim, W, d3):
+    """edit the units of the quantity x in place through one public route (ks: the bases touched by the nested setters);
+    returns the (sys, dim) x must now have"""
+    UnitsSystem, UnitsDimensions, Units = impl_objs()[:3]
+    cs, cd = list(cur_sys), list(cur_dim)
+    if how == "sys-attr":
+        for k in ks:
+            setattr(x.units.sys, _BASES[k], W[k])
+            cs[k] = W[k]
+    elif how == "sys-item":
+        for k in ks:
+            x.units.sys[_BASES[k]] = W[k]
+            cs[k] = W[k]
+    elif how == "dim-attr":
+        for k in ks:
+            setattr(x.units.dim, _BASES[k], d3[k])
+            cd[k] = d3[k]
+    elif how == "dim-item":
+        for k in ks:
+            x.units.dim[_BASES[k]] = d3[k]
+            cd[k] = d3[k]
+    elif how == "sys-object":
+        x.units.sys = UnitsSystem(*W)
+        cs = list(W)
+    elif how == "sys-dict":
+        x.units.sys = sysj(W)
+        cs = list(W)
+    elif how == "dim-object":
+        x.units.dim = UnitsDimensions(*d3)
+        cd = list(d3)
+    elif how == "dim-dict":
+        x.units.dim = {"space": d3[0], "time": d3[1], "quantity": d3[2]}
+        cd = list(d3)
+    elif how == "units-object":
+        x.units = mk_units(W, d3)
+        cs, cd = list(W), list(d3)
+    elif how == "units-text":
+        x.units = units_text(W, d3)
+        cs = [W[k] if d3[k] != 0 else _DEFAULT[k] for k in range(3)]
+        cd = list(d3)
+    else:
+        raise ValueError(how)
+    return tuple(cs), tuple(cd)
+
+
+def _mk_target(form, V, d):
+    UnitsSystem, UnitsDimensions, Units, UnitValue = impl_objs()[:4]
+    if form == "str":
+        return units_text(V, d), {"kind": "str"}
+    if form == "units":
+        return mk_units(V, d), {"kind": "units", "u": unitsj(V, d)}
+    if form == "uval":
+        return UnitValue(7, mk_units(V, d)), {"kind": "uval", "x": {"v": "7", "u": unitsj(V, d)}}
+    if form == "sys":
+        return UnitsSystem(*V), {"kind": "sys", "sys": sysj(V)}
+    return sysj(V), {"kind": "dict", "d": sysj(V)}
+
+
+_FORMS5 = ["sys", "dict", "units", "uval", "str"]
+
+
+def edit_sequence(case, TOL=1e-12):
+    """run one recorded history on ONE quantity object (see edited_in_place_stream) on the real code.
+    → (problems, pending model comparisons, edited object differs from the original in a base that matters)"""
+    UnitsSystem, UnitsDimensions, Units, UnitValue, UnitArray, ccf, parse_units = impl_objs()
+    import numpy as np
+    U, V, W, X = tuple(case["U"]), tuple(case["T"]), tuple(case["W"]), tuple(case["X"])
+    d, d3 = tuple(case["dim"]), tuple(case["dim_after"])
+    vals, is_arr, form = list(case["values"]), case["array"], case["target_form"]
+    x = UnitArray(list(vals), mk_units(U, d)) if is_arr else UnitValue(vals[0], mk_units(U, d))
+    st = {"sys": tuple(U), "dim": tuple(d)}
+    problems, pend = [], []
+    tobj, tj = _mk_target(form, V, st["dim"])
+    tdim = st["dim"]
+
+    def conv(label, target_sys, tform, reuse=None):
+        """convert x (as it is now) and judge against SI scaling from the units it has now"""
+        cur_sys, cur_dim = st["sys"], st["dim"]
+        t, tjs = reuse if reuse is not None else _mk_target(tform, target_sys, cur_dim)
+        f = si_factor(cur_sys, cur_dim) / si_factor(target_sys, cur_dim)
+        before = np.array(x.value, dtype=float).tobytes()
+        try:
+            y = x.convert(t)
+            gv = [float(v) for v in (y.value if is_arr else [y.value])]
+            gs, gd = _sys3(y.units), _dim3(y.units)
+        except Exception as ex:  # noqa
+            problems.append((label, "raised " + type(ex).__name__, None))
+            return
+        eff = tuple(target_sys[k] if (tform != "str" or cur_dim[k] != 0) else _DEFAULT[k] for k in range(3))
+        if np.array(x.value, dtype=float).tobytes() != before:
+            problems.append((label, "the converted object's own values changed", [float(v) for v in np.ravel(x.value)]))
+        if len(gv) != len(vals) or not all(close(g, frac(v) * f, rel=TOL) for g, v in zip(gv, vals)) or gd != cur_dim or gs != eff:
+            problems.append((label, "got %r %s^%s, exact SI scaling from the current units %s^%s gives %s %s^%s"
+                             % (gv, list(gs), list(gd), list(cur_sys), list(cur_dim), [common.fstr(frac(v) * f) for v in vals],
+                                list(eff), list(cur_dim)), gv))
+        elif tjs.get("kind") != "str":
+            op = {"op": "convert", "target": tjs}
+            if is_arr:
+                op["xs"] = {"vs": [rstr(v) for v in vals], "u": unitsj(cur_sys, cur_dim)}
+            else:
+                op["x"] = {"v": rstr(vals[0]), "u": unitsj(cur_sys, cur_dim)}
+            pend.append((dict(case, step=label), gv, gs, gd, op))
+
+    for w in range(case["conversions_before"]):
+        conv("before-edit-%d" % w, V, form, reuse=(tobj, tj))
+    if case["detour"]:
+        conv("before-edit-detour", X, "sys")
+        conv("before-edit-again", V, form, reuse=(tobj, tj))
+    ok_edit = True
+    for how, ks in zip(case["edits"], case["edit_bases"]):
+        try:
+            st["sys"], st["dim"] = _apply_edit(x, how, ks, st["sys"], st["dim"], W, d3)
+        except Exception as ex:  # noqa
+            problems.append(("edit:" + how, "a documented units setter raised " + type(ex).__name__, None))
+            ok_edit = False
+            break
+    if ok_edit and (_sys3(x.units), _dim3(x.units)) != (st["sys"], st["dim"]):
+        problems.append(("edit", "units read back after the edit are %s^%s, assigned %s^%s"
+                         % (list(_sys3(x.units)), list(_dim3(x.units)), list(st["sys"]), list(st["dim"])), None))
+        ok_edit = False
+    nontriv = ok_edit and any((st["sys"][k] != U[k] and st["dim"][k] != 0) or st["dim"][k] != d[k] for k in range(3))
+    if ok_edit:
+        # the same target object when it carries no dimension or the dimension was not edited; else the same target system
+        reuse = (tobj, tj) if (form in ("sys", "dict") or st["dim"] == tdim) else None
+        conv("after-edit", V, form, reuse=reuse)
+        conv("after-edit-other-target", X, _FORMS5[(_FORMS5.index(form) + 1) % 5])
+        conv("after-edit-again", V, form, reuse=reuse)
+        # a copy of the edited object converts like the object
+        try:
+            y = x.copy().convert(UnitsSystem(*V))
+            gv = [float(v) for v in (y.value if is_arr else [y.value])]
+            f = si_factor(st["sys"], st["dim"]) / si_factor(V, st["dim"])
+            if not all(close(g, frac(v) * f, rel=TOL) for g, v in zip(gv, vals)):
+                problems.append(("after-edit-copy", "copy().convert gives %r" % gv, gv))
+        except Exception as ex:  # noqa
+            problems.append(("after-edit-copy", "raised " + type(ex).__name__, None))
+    return problems, pend, nontriv
+
+
+def edited_in_place_stream(ctx, n, TOL=1e-12):
+    """history on ONE quantity object: k conversions (to T, possibly to other targets in between, ending with T), an in-place
+    edit of its units through a public route (nested attribute / item setters of `x.units.sys`, `x.units.dim`, assignment of
+    `x.units.sys`, `x.units.dim`, `x.units`), then conversion to the SAME target system T again (same target object when its
+    form carries no dimension), then to another target and to T once more.  Every conversion is judged by exact SI scaling
+    from the units the object has at that moment (tracked here from what was assigned, and read back from the object);
+    the values of the object must stay bit-identical.  The post-edit conversions are also compared with the model's
+    `convert` on a fresh quantity holding the current units (conversion is a function of the current content only)."""
+    rng = ctx.rng
+    pend = []
+    for i in range(n):
+        U, V, W, X = rand_sys(rng), rand_sys(rng), rand_sys(rng), rand_sys(rng)
+        d = rand_dim(rng, -3, 3)
+        if d == (0, 0, 0):
+            d = (1, 0, 0)
+        d3 = rand_dim(rng, -3, 3)
+        is_arr = (i % 4 != 3)
+        vals = [float(rng.randint(1, 99999) * Fraction(10) ** rng.randint(-6, 6)) for _ in range(rng.randint(1, 4) if is_arr else 1)]
+        nedits = rng.choice([1, 1, 2])
+        edits = [_EDITS[(i + 5 * j) % len(_EDITS)] if j == 0 else rng.choice(_EDITS) for j in range(nedits)]
+        case = {"U": U, "T": V, "W": W, "X": X, "dim": d, "dim_after": d3, "values": vals, "array": is_arr,
+                "target_form": _FORMS5[i % 5], "edits": edits,
+                "edit_bases": [sorted(rng.sample([0, 1, 2], rng.choice([1, 1, 2, 3]))) for _ in edits],
+                "conversions_before": rng.choice([1, 1, 2, 3]),      # conversions to T before the edit
+                "detour": rng.random() < 0.3}                        # T, X, T before the edit
+        ctx.count("edited_in_place_sequences")
+        ctx.count("edited_in_place_" + edits[0])
+        problems, pnd, nontriv = edit_sequence(case, TOL)
+        pend += pnd
+        ctx.case(("E", U, V, W, d, d3, case["target_form"], is_arr, tuple(edits), case["conversions_before"], case["detour"]),
+                 nontrivial=nontriv)
+        if problems:
+            label = problems[0][0]
+            stage = "after-edit" if label.startswith("after") else ("edit" if label.startswith("edit") else "before-edit")
+            ctx.violation("edited-in-place:%s:%s:%s" % ("array" if is_arr else "scalar", stage, edits[0] if stage != "before-edit" else "none"),
+                          "one %s converted, its units edited in place (%s), converted again: step %s: %s"
+                          % ("UnitArray" if is_arr else "UnitValue", ", ".join(edits), label, problems[0][1]),
+                          case, impl=[list(p) for p in problems[:4]], expected="exact SI scaling from the object's current units")
+    res = ctx.model.run([p[4] for p in pend])
+    for (case, gv, gs, gd, op), r in zip(pend, res):
+        if r is None:
+            continue
+        if "ok" not in r:
+            ctx.disagree("convert", case, gv, r)
+            continue
+        mo = r["ok"]
+        mvs = [rparse(v) for v in (mo["vs"] if "vs" in mo else [mo["v"]])]
+        ms = (mo["u"]["sys"]["space"], mo["u"]["sys"]["time"], mo["u"]["sys"]["quantity"])
+        if len(mvs) != len(gv) or not all(close(g, m, rel=TOL) for g, m in zip(gv, mvs)) or ms != tuple(gs) or tuple(mo["u"]["dim"]) != tuple(gd):
+            ctx.disagree("convert", case, gv, r)
 
 
 def run(ctx):
@@ -194,19 +516,33 @@ def run(ctx):
             ctx.violation("factor:extreme", "conversion factor %s^%s -> %s is %r (SI scaling gives %s), there-and-back of 3.0 gives %r"
                           % (U, d, V, got, common.fstr(spec), back), case, impl={"factor": got, "back": back}, expected=rstr(spec))
 
+    # ---------------------------------------------------------------- 1c. exponents far beyond +-4 (the property quantifies over
+    # all integer dimension vectors): 10 <= |e| <= 48 on one to three bases, factor (and its partial products) inside 1e+-270
+    big_exponent_stream(ctx, ctx.n(400, 12000))
+
     # ---------------------------------------------------------------- 2. random conversions, five target forms
     n = ctx.n(1500, 40000)
     ops, meta = [], []
     forms = ["str", "units", "uval", "sys", "dict"]
-    for i in range(n):
-        U, V = rand_sys(rng), rand_sys(rng)
-        d = rand_dim(rng)
+    nbig = ctx.n(300, 8000)       # the same five target forms with exponents far beyond +-4 (see big_dim_case)
+    for i in range(n + nbig):
+        big = i >= n
+        if not big:
+            U, V = rand_sys(rng), rand_sys(rng)
+            d = rand_dim(rng)
+        else:
+            U, V, d = big_dim_case(rng)
         form = forms[i % 5]
         mismatch = (rng.random() < 0.15)
         d2 = d
-        if mismatch:
+        if mismatch and not big:
             while d2 == d:
                 d2 = rand_dim(rng)
+        elif mismatch:
+            # another large dimension vector: one exponent off by one / sign flipped / dropped
+            while d2 == d:
+                kk = rng.randrange(3)
+                d2 = tuple(rng.choice([d[j] + 1, d[j] - 1, -d[j], 0]) if j == kk else d[j] for j in range(3))
         is_arr = rng.random() < 0.4
         mant = rng.choice([1, -1]) * rng.randint(1, 999999) * Fraction(10) ** rng.randint(-12, 12)
         vals = [float(mant)] if not is_arr else [float(mant * rng.randint(1, 9)) for _ in range(rng.randint(0, 4))]
@@ -226,9 +562,9 @@ def run(ctx):
         else:
             op["x"] = {"v": rstr(vals[0]), "u": unitsj(U, d)}
         ops.append(op)
-        meta.append((U, V, d, d2, form, is_arr, vals))
+        meta.append((U, V, d, d2, form, is_arr, vals, big))
     res = ctx.model.run(ops)
-    for (U, V, d, d2, form, is_arr, vals), r, op in zip(meta, res, ops):
+    for (U, V, d, d2, form, is_arr, vals, big), r, op in zip(meta, res, ops):
         src_units = mk_units(U, d)
         x = UnitArray(vals, src_units) if is_arr else UnitValue(vals[0], src_units)
         if form == "str":
@@ -263,6 +599,9 @@ def run(ctx):
         ctx.count("form_" + form)
         ctx.count("array" if is_arr else "scalar")
         ctx.count("expected_error" if must_raise else "expected_ok")
+        if big:
+            ctx.count("convert_large_exponent")
+        form = form + (":large-exponent" if big else "")      # (only used in the keys of findings below)
         # --- oracle (Spec)
         if must_raise:
             if "error" not in got:
@@ -388,6 +727,10 @@ def run(ctx):
         if x.value != vals[0] or (x.units.sys.space, x.units.sys.time, x.units.sys.quantity) != tuple(U):
             ctx.violation("purity:scalar-source-modified", "UnitValue.convert modified its source", case, impl=x.value)
 
+    # ---------------------------------------------------------------- 3d. ONE quantity object (array or scalar) converted, then
+    # its units edited IN PLACE through the public nested setters, then converted again to the same target
+    edited_in_place_stream(ctx, ctx.n(350, 8000))
+
     # ---------------------------------------------------------------- 3c. other dimension, SAME unit system (every checking form)
     # (a text target names only the bases with non-zero exponent; the others default to µm / s / molecule)
     for i in range(ctx.n(400, 4000)):
@@ -473,18 +816,34 @@ def run(ctx):
                     ctx.disagree("parse_units", case, got, r)
 
 
+def search(ctx):
+    """an obligation broke and no input failed yet: the two history / magnitude streams at thorough size"""
+    big_exponent_stream(ctx, 6000)
+    edited_in_place_stream(ctx, 4000)
+
+
 def replay(ctx, rec):
     """re-run one recorded case on the real code"""
     UnitsSystem, UnitsDimensions, Units, UnitValue, UnitArray, ccf, parse_units = impl_objs()
     case = rec.get("case", rec)
     out = {"case": case}
     ok = True
-    if "src" in case and "dst" in case:
+    if "edits" in case and "edit_bases" in case:
+        problems, _pend, _nt = edit_sequence(case)
+        out.update(problems=[list(p) for p in problems[:4]])
+        ok = not problems
+    elif "src" in case and "dst" in case:
         src, dst, dim = case["src"], case["dst"], case["dim"]
-        got = ccf(UnitsSystem(*src), UnitsSystem(*dst), UnitsDimensions(*dim))
         spec = si_factor(src, dim) / si_factor(dst, dim)
-        out.update(impl=got, spec=float(spec))
-        ok = close(got, spec, rel=1e-12)
+        try:
+            got = ccf(UnitsSystem(*src), UnitsSystem(*dst), UnitsDimensions(*dim))
+            v0 = case.get("v", 1.0)
+            val = UnitValue(v0, mk_units(src, dim)).convert(UnitsSystem(*dst)).value
+            out.update(impl=got, converted=val, spec=common.fstr(spec))
+            ok = close(got, spec, rel=1e-12) and close(val, frac(v0) * spec, rel=1e-12)
+        except Exception as ex:  # noqa
+            out.update(impl=repr(ex), spec=common.fstr(spec))
+            ok = False
     elif "text" in case:
         try:
             u = parse_units(case["text"])
